@@ -12,7 +12,7 @@ SIMS = [s for s in simruns.ALL if s != "complex_contagion_SIR"] + [simruns.RULE_
 
 
 def scenarios(tier, seed):
-    fam = simruns.graph_family(seed, 30 if tier == "quick" else 150, max_n=10 if tier == "quick" else 14)
+    fam = simruns.graph_family(seed, 60 if tier == "quick" else 150, max_n=12 if tier == "quick" else 14)
     out = []
     seeds = [1, 2] if tier == "quick" else [1, 2, 3, 4]
     for gi, (n, edges) in enumerate(fam):
@@ -34,11 +34,11 @@ def scenarios(tier, seed):
                                     "p": 0.8, "tmin": 0 if s % 2 else 3, "tmax": (0 if s % 2 else 3) + 1 + (gi + s) % 3,
                                     "init_kw": ik, "weighted": False, "seed": s * 104729 + gi + 17})
     # tie-heavy event-driven scenarios (zero delays, simultaneous events)
-    for sc in event_scn.sir_scenarios(seed, 1500 if tier == "quick" else 10000, exhaustive2=False):
+    for sc in event_scn.sir_scenarios(seed, 4000 if tier == "quick" else 10000, exhaustive2=False):
         out.append({"type": "ties", "scn": sc})
     # generic models on directed and undirected graphs
     rng = pyrandom.Random(seed + 99)
-    for k in range(800 if tier == "quick" else 5000):
+    for k in range(2000 if tier == "quick" else 5000):
         mname = rng.choice(sorted(contagion.MODELS))
         sts, sp, ind = contagion.MODELS[mname]
         n = rng.randint(3, 6)
